@@ -251,6 +251,12 @@ func TestC11_RedirectTargets(t *testing.T) {
 		cl.RedirectURIs = regStr
 		cl.ResponseModes = []fosite.ResponseModeType{fosite.ResponseModeQuery, fosite.ResponseModeFragment, fosite.ResponseModeFormPost}
 		w.AddClient(cl, "s")
+		// a second client with redirect URIs of its own
+		cl2 := stdClient("c11b", false)
+		cl2.Secret = w.HashSecret("s2")
+		cl2.RedirectURIs = []string{"https://second-rp.example/cb", "http://127.0.0.1/second"}
+		cl2.ResponseModes = cl.ResponseModes
+		w.AddClient(cl2, "s2")
 
 		// requested: named near-miss edits of a registered URI
 		base := reg[rapid.IntRange(0, nreg-1).Draw(rt, "base")]
@@ -492,13 +498,34 @@ func TestC11_RedirectTargets(t *testing.T) {
 					uq.Set("redirect_uri", rapid.SampledFrom([]string{"https://attacker.example/collect", "http://127.0.0.1:9/x", reqStr + "/evil", "https://rp.example.evil.example/cb"}).Draw(rt, "frontRedirect"))
 					h.Label("par-use-with-front-channel-redirect_uri")
 				}
+				// the request_uri may also be presented under another client's id: whatever happens then, no redirect
+				// may leave for a URI that is not registered for the client the response is issued to
+				foreign := rapid.IntRange(0, 3).Draw(rt, "requestURIUnderAnotherClientID") == 0
+				if foreign {
+					uq.Set("client_id", "c11b")
+					h.Label("par-use-under-another-client-id")
+				}
 				ar := w.Authorize(uq, h.Consent{})
 				tgt := ar.Location
 				if ar.Mode == "form_post" {
 					tgt = ar.FormURL
 				}
 				if tgt != "" && tgt != "#ZgotmplZ" {
-					if ok, reason := targetOK(tgt, ar.Mode, reg); !ok {
+					if foreign {
+						// an error may go back to the client that pushed the request (the request_uri identifies it); a
+						// success response is issued to c11b and must go to one of c11b's URIs
+						forB := false
+						for _, r := range cl2.RedirectURIs {
+							if tgt == r || strings.HasPrefix(tgt, r+"?") || strings.HasPrefix(tgt, r+"#") {
+								forB = true
+							}
+						}
+						forA, _ := targetOK(tgt, ar.Mode, reg)
+						success := ar.Code != "" || ar.Access != "" || ar.IDToken != ""
+						if (success && !forB) || (!success && !forA && !forB) {
+							h.Violate(rt, "C11/redirect-to-unregistered-target", "request_uri pushed by c11 used with client_id=c11b: the response (success=%v) went to %q, which is not registered for the client it is issued to; %s", success, tgt, desc)
+						}
+					} else if ok, reason := targetOK(tgt, ar.Mode, reg); !ok {
 						h.Violate(rt, "C11/redirect-to-unregistered-target", "after PAR: %s: target %q; %s", reason, tgt, desc)
 					}
 				}
